@@ -13,6 +13,7 @@ type decIn struct {
 	C  uint32 `json:"c,omitempty"`
 	C2 uint32 `json:"c2,omitempty"`
 	N  string `json:"n,omitempty"`
+	N2 string `json:"n2,omitempty"`
 }
 
 func emitDecode(o *hlib.Out, kind string, c uint32) {
@@ -39,6 +40,18 @@ func emitPair(o *hlib.Out, c1, c2 uint32) {
 		decIn{Op: "pair", C: c1, C2: c2}, map[string]string{"w1": w1.String(), "w2": w2.String()})
 }
 
+// emitEncPair: integer targets t1 <= t2 pushed through BigToCompact, then CalcWork.
+func emitEncPair(o *hlib.Out, kind string, t1, t2 *big.Int) {
+	if t1.Cmp(t2) > 0 {
+		t1, t2 = t2, t1
+	}
+	w1 := difficulty.CalcWork(difficulty.BigToCompact(t1))
+	w2 := difficulty.CalcWork(difficulty.BigToCompact(t2))
+	o.Emit(kind, t1.Sign() > 0,
+		hlib.App("CEncPair", hlib.ZBig(t1), hlib.ZBig(t2), hlib.ZBig(w1), hlib.ZBig(w2)),
+		decIn{Op: "encpair", N: t1.String(), N2: t2.String()}, map[string]string{"w1": w1.String(), "w2": w2.String()})
+}
+
 func main() {
 	opts := hlib.ParseFlags()
 	o := hlib.NewOut(opts.OutDir)
@@ -56,6 +69,10 @@ func main() {
 			emitEncode(o, "replay", n)
 		case "pair":
 			emitPair(o, in.C, in.C2)
+		case "encpair":
+			t1, _ := new(big.Int).SetString(in.N, 10)
+			t2, _ := new(big.Int).SetString(in.N2, 10)
+			emitEncPair(o, "replay", t1, t2)
 		}
 		return
 	}
@@ -96,6 +113,52 @@ func main() {
 		emitEncode(o, "encode-pow", new(big.Int).Sub(p, one))
 		emitEncode(o, "encode-pow", new(big.Int).Rsh(p, 8))
 		emitEncode(o, "encode-pow", new(big.Int).Rsh(p, 1))
+	}
+	// exactly representable integers (mantissa << shift), both signs; negative integers whose
+	// arithmetic right shift rounds the magnitude up (leading bytes 7fffff / ffffff + low bits)
+	mants := []int64{1, 0x7f, 0x80, 0xff, 0x100, 0x7fff, 0x8000, 0xffff, 0x10000, 0x7fffff, 0x800000, 0xffffff, 0x123456, 0xff00, 0x8001}
+	for sh := uint(0); sh <= 253; sh++ {
+		if !opts.Thorough() && sh > 6 && sh%9 != 0 && sh < 248 {
+			continue
+		}
+		for _, m := range mants {
+			n := new(big.Int).Lsh(big.NewInt(m), 8*sh)
+			emitEncode(o, "encode-exact", n)
+			emitEncode(o, "encode-exact-neg", new(big.Int).Neg(n))
+		}
+		for _, m := range []int64{0x7fffff, 0xffffff, 0x800000, 0x00ffff} {
+			if sh == 0 {
+				continue
+			}
+			n := new(big.Int).Lsh(big.NewInt(m), 8*sh)
+			n.Add(n, one)
+			emitEncode(o, "encode-neg-roundup", new(big.Int).Neg(n))
+			lowb := r.Bytes(int(sh))
+			n2 := new(big.Int).Lsh(big.NewInt(m), 8*sh)
+			n2.Add(n2, new(big.Int).SetBytes(lowb))
+			emitEncode(o, "encode-neg-roundup", new(big.Int).Neg(n2))
+		}
+	}
+	// integer target pairs through the encoder: class boundaries, neighbours, random
+	for l := 1; l <= 256; l++ {
+		if !opts.Thorough() && l > 8 && l%7 != 0 && l < 250 {
+			continue
+		}
+		p := new(big.Int).Lsh(one, uint(8*l))       // 256^l
+		h := new(big.Int).Rsh(p, 1)                 // top bit of an l-byte integer
+		pm, hm := new(big.Int).Sub(p, one), new(big.Int).Sub(h, one)
+		emitEncPair(o, "encpair-boundary", pm, p)
+		emitEncPair(o, "encpair-boundary", hm, h)
+		emitEncPair(o, "encpair-boundary", hm, pm)
+		emitEncPair(o, "encpair-boundary", h, p)
+		for i := 0; i < 4; i++ {
+			a := new(big.Int).SetBytes(r.Bytes(l))
+			b := new(big.Int).SetBytes(r.Bytes(l))
+			emitEncPair(o, "encpair-rand", a, b)
+			emitEncPair(o, "encpair-rand", a, new(big.Int).Add(a, one))
+			c := new(big.Int).SetBytes(r.Bytes(1 + r.Intn(l)))
+			emitEncPair(o, "encpair-rand", a, c)
+		}
 	}
 	// work pairs: neighbours and random pairs
 	npairs := 2000
